@@ -100,6 +100,8 @@ Proof.
     rewrite Hsw.
     replace ((level_of v <? 0) || (7 <? level_of v)) with false
       by (symmetry; apply orb_false_iff; split; apply Z.ltb_ge; lia).
+    replace ((0 <=? c) && (c <=? 3)) with true by (symmetry; apply andb_true_iff; split; apply Z.leb_le; lia).
+    cbn [negb].
     destruct (ioprio_valid_ok c (level_of v)) as [Hp Hv]; [lia|lia| |].
     { intros Hc0. rewrite (H03 Hc0). reflexivity. }
     unfold c_ioprio_set, fits_int.
@@ -201,6 +203,8 @@ Theorem invalid_rejected k pid p : kget pid k = Some p -> wf_procb k p = true ->
   /\ (forall c v, c = 0 \/ c = 3 -> v <> 0 -> run_req pid (Ionice (Some c) (Some v)) k = (Exc ValueError, k))
   (* a level without a class *)
   /\ (forall v, run_req pid (Ionice None (Some v)) k = (Exc ValueError, k))
+  (* a class outside 0-3, with or without a level *)
+  /\ (forall c v, c < 0 \/ 3 < c -> run_req pid (Ionice (Some c) v) k = (Exc ValueError, k))
   (* a CPU list naming only nonexistent or ineligible CPUs *)
   /\ (forall cpus, cpus <> [] -> (forall c, In c cpus -> ~ In c (p_elig p)) ->
         run_req pid (Affinity (Some cpus)) k = (Exc ValueError, k))
@@ -208,7 +212,7 @@ Theorem invalid_rejected k pid p : kget pid k = Some p -> wf_procb k p = true ->
   /\ (forall res l, length l <> 2%nat -> run_req pid (Rlimit res (Some l)) k = (Exc ValueError, k)).
 Proof.
   intros Hg Hwf Hpid. pose proof (wf_procb_facts k p Hwf) as F.
-  split; [|split; [|split; [|split]]].
+  split; [|split; [|split; [|split; [|split]]]].
   - intros c v Hv. apply (meets_ionice k pid p _ _ _ Hg (wf_io p F)). unfold spec_req. rewrite Hg.
     replace ((v <? 0) || (7 <? v)) with true; [reflexivity|].
     symmetry. apply orb_true_iff. destruct Hv; [left|right]; apply Z.ltb_lt; lia.
@@ -219,6 +223,10 @@ Proof.
     + apply orb_true_iff. destruct Hc; [left|right]; apply Z.eqb_eq; assumption.
     + apply negb_true_iff. apply Z.eqb_neq. exact Hv.
   - intros v. reflexivity.
+  - intros c v Hc. unfold run_req, ionice, ionice_set.
+    destruct (negb _ && _); [reflexivity|]. destruct (_ || _); [reflexivity|].
+    replace ((0 <=? c) && (c <=? 3)) with false; [reflexivity|].
+    symmetry. apply andb_false_iff. destruct Hc; [left; apply Z.leb_gt|right; apply Z.leb_gt]; lia.
   - intros cpus Hne Hout. destruct cpus as [|c cs]; [congruence|].
     assert (Hall : all_in (c :: cs) (p_elig p) = false).
     { unfold all_in. cbn [forallb]. replace (memz c (p_elig p)) with false; [reflexivity|].
